@@ -487,6 +487,7 @@ open Dnp.H5 in
 def diskJ : Disk → Json
   | .absent => Json.null
   | .holds t => Json.mkObj [("tree", Json.mkObj (t.map (fun p => (p.1, nodeJ p.2)))), ("loaded", loadedJ (load t))]
+  | .other n => Json.mkObj [("other", Json.num (Int.ofNat n))]
 
 open Dnp.H5 in
 def h5J (j : Json) : M Json := do
@@ -495,6 +496,11 @@ def h5J (j : Json) : M Json := do
     | none => jWorkspace (← jField j "ws")
   let prev ← match jFieldOpt j "prev" with
     | some p => do
+      if let some t := jFieldOpt p "other" then return ← (do
+        let n ← jNat t
+        let ow := (jFieldOpt j "overwrite").isSome
+        let r := save (Disk.other n) w ow
+        pure (Json.mkObj [("outcome", Json.str "ok"), ("raised", Json.bool r.raised), ("disk", diskJ r.disk)]))
       let pw ← match jFieldOpt p "single" with
         | some o => do pure (wrap (← jObj o))
         | none => jWorkspace (← jField p "ws")
